@@ -21,6 +21,25 @@ fn distinct(xs: &[&str]) -> bool {
     true
 }
 
+/// the keywords of one dispatch of the enum parser, in the order the parser tries them: a keyword
+/// tried earlier must not be a prefix of one tried later, otherwise the later one can never be
+/// selected (the lexical parser matches the longest keyword first, so the two pipelines would
+/// disagree on it - C03; and the derived copulas / connecters would not mean what is documented - C10)
+fn reachable_in_order(xs: &[&str]) -> bool {
+    let mut i = 0;
+    while i < xs.len() {
+        let mut j = i + 1;
+        while j < xs.len() {
+            if xs[j].starts_with(xs[i]) {
+                return false;
+            }
+            j += 1;
+        }
+        i += 1;
+    }
+    true
+}
+
 /// mirrors the Verus spec functions format_wf / vocabulary_distinct (contracts/common/format_specs.rs,
 /// contracts/enum_parser/specs.rs) clause by clause
 fn check_format(f: &NarseseFormat<&str>) {
@@ -49,6 +68,30 @@ fn check_format(f: &NarseseFormat<&str>) {
     ]));
     assert!(c.brackets_set_extension.0 != c.brackets_set_intension.0
         || c.brackets_set_extension.1 != c.brackets_set_intension.1);
+    // every keyword is reachable in the enum parser's trial order (transcribed from the dispatch
+    // sites consume_punctuation, consume_stamp, parse_statement, parse_compound, parse_atom, parse_term)
+    let n = &f.sentence;
+    assert!(reachable_in_order(&[n.punctuation_judgement, n.punctuation_goal, n.punctuation_question, n.punctuation_quest]));
+    assert!(reachable_in_order(&[n.stamp_fixed, n.stamp_past, n.stamp_present, n.stamp_future]));
+    let s = &f.statement;
+    assert!(reachable_in_order(&[
+        s.copula_inheritance, s.copula_similarity, s.copula_implication, s.copula_equivalence,
+        s.copula_instance, s.copula_property, s.copula_instance_property,
+        s.copula_implication_predictive, s.copula_implication_concurrent, s.copula_implication_retrospective,
+        s.copula_equivalence_predictive, s.copula_equivalence_concurrent, s.copula_equivalence_retrospective,
+    ]));
+    assert!(reachable_in_order(&[
+        c.connecter_conjunction, c.connecter_disjunction, c.connecter_negation,
+        c.connecter_conjunction_sequential, c.connecter_conjunction_parallel,
+        c.connecter_intersection_extension, c.connecter_intersection_intension,
+        c.connecter_difference_extension, c.connecter_difference_intension, c.connecter_product,
+        c.connecter_image_extension, c.connecter_image_intension,
+    ]));
+    assert!(reachable_in_order(&[
+        a.prefix_placeholder, a.prefix_variable_independent, a.prefix_variable_dependent,
+        a.prefix_variable_query, a.prefix_interval, a.prefix_operator, a.prefix_word,
+    ]));
+    assert!(reachable_in_order(&[c.brackets_set_extension.0, c.brackets_set_intension.0, c.brackets.0, s.brackets.0]));
 }
 
 #[kani::proof]
